@@ -76,6 +76,9 @@ def _match_one(pattern, value):
             return isinstance(value, str) and value.startswith(pattern['prefix'])
         if 'contains' in pattern:
             return isinstance(value, str) and pattern['contains'] in value
+        if 'regex' in pattern:
+            import re
+            return isinstance(value, str) and re.search(pattern['regex'], value) is not None
         return False
     if isinstance(pattern, list):
         return value in pattern
